@@ -138,6 +138,7 @@ REQUIRED_HITS = ['smtp-attempt-judged', 'lmtp-attempt-judged', 'pipe-attempt-jud
                  'mx-attempt-judged', 'delivered-vs-accepted-compared', 'class-judged', 'complete-judged',
                  'watchdog-armed', 'mx-host-choice-checked', 'reuse-second-message-judged',
                  'tls-negotiated-downstream', 'usable-result-checked', 'stratum/http-reply-header-shape',
+                 'stratum/reply-text-variant', 'stratum/pipe-output-text-variant',
                  # audit strata (each decides CLASS / SAFETY / TYPE for a behaviour the first table lacked)
                  'stratum/tcp-reset-by-next-hop', 'stratum/positive-reply-variant', 'stratum/multi-line-reply',
                  'stratum/segmented-reply', 'stratum/tls-handshake-failure', 'stratum/tls-immediately',
@@ -745,6 +746,58 @@ def gen_smtp_audit():
     return cases
 
 
+# --- the TEXT of scripted replies (audit): the class of an outcome follows the reply CODE whatever the text says
+TEXT_VARIANTS = collections.OrderedDict([
+    ('no-esc', ('text', 'No SMTP service here')),
+    ('esc-3-digit-detail', ('text', '5.7.708 Access denied, banned sender')),
+    ('esc-3-digit-subject', ('text', '4.123.5 subject field of three digits')),
+    ('esc-2-digit-fields', ('text', '4.10.25 try again later')),
+    ('esc-2.0.0', ('text', '2.0.0 fine')),
+    ('esc-5.0.0', ('text', '5.0.0 no')),
+    ('esc-4.2.0', ('text', '4.2.0 mailbox busy')),
+    ('esc-like-4-digit-detail', ('text', '2.0.2024 see ticket')),
+    ('esc-like-4-digit-subject', ('text', '5.1234.1 odd')),
+    ('only-an-esc-3-digit', ('exact', '5.7.708')),
+    ('only-an-esc', ('exact', '2.0.0')),
+    ('empty-text', ('exact', '')),
+    ('very-long-text', ('text', '4.2.0 ' + 'x' * 900)),
+    ('8-bit-text', ('text', '5.2.2 bo\u00eete pleine \u2603')),
+    ('multi-line-esc-per-line', ('ml', ['5.1.1 first line', '4.2.0 second line', '2.0.0 third line', 'no code here'])),
+])
+
+
+def _vary_action(a, rnd, stage, used):
+    if a[0] == 'chunks':
+        return [a[0], a[1], _vary_action(a[2], rnd, stage, used)]
+    if a[0] != 'reply' or len(a) != 2 or rnd.random() < 0.35:
+        return a
+    name = rnd.choice(list(TEXT_VARIANTS))
+    how, text = TEXT_VARIANTS[name]
+    if stage == 'idle' and how != 'text':
+        return a
+    used.append(name)
+    if how == 'text':
+        return ['reply', a[1], text]
+    if how == 'exact':
+        return ['reply-exact', a[1], text]
+    return ['reply-ml', a[1], list(text)]
+
+
+def vary_reply_texts(cases, rnd):
+    """Seeded choice of a text for every scripted one-line reply of the smtp / mx cases (new dicts: generator
+    tables share fault objects between cases)."""
+    for c in cases:
+        used = []
+        if c['kind'] == 'smtp':
+            c['faults'] = [dict(f, action=_vary_action(f['action'], rnd, f['stage'], used)) for f in c['faults']]
+        elif c['kind'] == 'mx':
+            c['faults'] = dict((h, [dict(f, action=_vary_action(f['action'], rnd, f['stage'], used)) for f in ff])
+                               for h, ff in c['faults'].items())
+        if used:
+            c['texts'] = used
+    return cases
+
+
 def make_script(D, faults, fired):
     seen = collections.Counter()
 
@@ -895,6 +948,16 @@ emit() {
     2) printf '4.2.0 try later\n';;
     3) printf 'maildrop: quota exceeded\n';;
     4) printf '\377\376 caf\351 failed\n';;
+    5) printf '5.7.708 Access denied, banned sender\n';;
+    6) printf '4.10.25 try again later\n';;
+    7) printf '5.1234.1 odd\n';;
+    8) printf '2.0.2024 see ticket\n';;
+    9) printf '5.7.708\n';;
+    10) printf '5.2.2 bo\303\256te pleine \342\230\203\n';;
+    11) printf '5.1.1 first line\n4.2.0 second line\nno code here\n';;
+    12) printf '4.2.0 '; head -c 3000 /dev/zero | tr '\000' x; printf '\n';;
+    13) printf 'No such service here\n';;
+    14) printf '5.123.7 subject field of three digits\n';;
   esac
 }
 [ -n "$log" ] && echo "start $full" >> "$log"
@@ -907,7 +970,12 @@ emit "$err" >&2
 [ -n "$log" ] && echo "exit $full $code" >> "$log"
 exit "$code"
 '''
-SHAPES = {0: 'empty', 1: '5.1.1', 2: '4.2.0', 3: 'maildrop:', 4: 'non-utf8'}
+SHAPES = {0: 'empty', 1: '5.1.1', 2: '4.2.0', 3: 'maildrop:', 4: 'non-utf8',
+          # audit: the same text variants as the scripted SMTP replies
+          5: '5.7.708', 6: '4.10.25', 7: '5.1234.1', 8: '2.0.2024', 9: 'only-5.7.708', 10: '5.2.2-8bit',
+          11: 'multi-line-esc-per-line', 12: '4.2.0-very-long', 13: 'no-esc', 14: '5.123.7'}
+# documented PipeRelay rule: permanent iff the output begins with 5.X.X and white space, else transient
+PIPE_TEXT_CLASS = {1: 'P', 2: 'T', 5: 'P', 6: 'T', 7: 'P', 10: 'P', 11: 'P', 12: 'T', 14: 'P'}
 PIPE_CLASSES = ('pipe-per-rcpt', 'pipe-single', 'maildrop', 'dovecot')
 
 
@@ -936,7 +1004,7 @@ def expect_pipe(cls, beh):
         return 'D'
     if cls.startswith('pipe-'):
         first = out or err                 # documented: stdout, else stderr
-        return {1: 'P', 2: 'T'}.get(first, 'F')
+        return PIPE_TEXT_CLASS.get(first, 'F')
     return 'T' if ex == 75 else 'F'
 
 
@@ -976,6 +1044,14 @@ def gen_pipe_all():
                 cases.append({'kind': 'pipe', 'cls': cls, 'nrcpt': 1, 'behs': [beh], 'stage': 'exit%d' % ex,
                               'outcome': 'out=%s,err=%s' % (SHAPES[out], SHAPES[err]), 'timeout': None,
                               'expect': [expect_pipe(cls, beh)], 'single': True})
+        # the text variants on stdout / on stderr
+        for ex in (1, 75):
+            for shape in range(5, 15):
+                for out, err in ((shape, 0), (0, shape)):
+                    beh = [ex, out, err, 0]
+                    cases.append({'kind': 'pipe', 'cls': cls, 'nrcpt': 1, 'behs': [beh], 'stage': 'exit%d' % ex,
+                                  'outcome': 'out=%s,err=%s' % (SHAPES[out], SHAPES[err]), 'timeout': None,
+                                  'expect': [expect_pipe(cls, beh)], 'single': True, 'text_variant': True})
         # a program that exits without reading its input, the message being larger than a pipe buffer (the
         # relay's write fails with EPIPE) -- the exit status alone decides
         for ex, out in ((0, 0), (1, 1), (75, 2), (1, 0)):
@@ -1259,6 +1335,17 @@ HDR_SHAPES = collections.OrderedDict([
     ('two-headers-550-then-450', ([b'X-Smtp-Reply: 550; message="5.1.1 no"', b'X-Smtp-Reply: 450; message="4.2.0 later"'],
                                   'F')),
     ('250-code-and-semicolon', (b'250;', 'F')),
+    # the same text variants as the scripted SMTP replies, as the message parameter
+    ('550-text-esc-3-digit-detail', (b'550; message="5.7.708 Access denied, banned sender"', 'P')),
+    ('450-text-esc-3-digit-subject', (b'450; message="4.123.5 subject field of three digits"', 'T')),
+    ('450-text-esc-2-digit-fields', (b'450; message="4.10.25 try again later"', 'T')),
+    ('550-text-esc-of-another-class', (b'550; message="4.2.0 mailbox busy"', 'P')),
+    ('450-text-esc-of-another-class', (b'450; message="5.0.0 no"', 'T')),
+    ('550-text-esc-like-4-digit-detail', (b'550; message="2.0.2024 see ticket"', 'P')),
+    ('550-text-esc-like-4-digit-subject', (b'550; message="5.1234.1 odd"', 'P')),
+    ('550-text-only-an-esc', (b'550; message="5.7.708"', 'P')),
+    ('550-text-no-esc', (b'550; message="No SMTP service here"', 'P')),
+    ('250-text-esc-of-another-class', (b'250; message="5.0.0 no"', 'F')),
 ])
 
 
@@ -1667,6 +1754,9 @@ def classify(clause, case, m, extra='', crashes=()):
     if clause == 'type':
         exc = res.get('type', '?')
         if res['end'] == 'raised-other':
+            if exc == 'ValueError' and 'ENHANCEDSTATUSCODES' in res.get('repr', ''):
+                return 'type/%s/enhanced-status-code-in-the-reply-text->ValueError' % (
+                    'smtp+lmtp' if k in ('smtp', 'lmtp', 'mx') else k)
             if k in ('smtp', 'lmtp', 'mx') and exc == 'ValueError' and 'Invalid SMTP reply code' in res.get('repr', ''):
                 return 'type/smtp/out-of-range-reply-code->ValueError'
             if k in ('smtp', 'lmtp') and exc == 'UnicodeEncodeError' and case.get('nonascii') is not None:
@@ -1707,7 +1797,7 @@ def classify(clause, case, m, extra='', crashes=()):
         return 'unclassified/attempt-does-not-end/%s/%s/%s/%s' % (k, fam, oc, pl)
     if clause == 'safety':
         if k in ('smtp', 'lmtp'):
-            wc = set(f['stage'] for f in case['faults'] if f['action'][0] == 'reply' and f['action'][1][0] in '13'
+            wc = set(f['stage'] for f in case['faults'] if f['action'][0].startswith('reply') and f['action'][1][0] in '13'
                      and stage_family(f['stage']) in ('rcpt', 'eod'))
             if 'rcpt' + extra in wc:         # this recipient's own RCPT was answered 1xx/3xx
                 return 'unsafe-delivered/smtp+lmtp/rcpt-reply-1xx-or-3xx-taken-as-accepted'
@@ -1720,6 +1810,8 @@ def classify(clause, case, m, extra='', crashes=()):
                 return 'unsafe-delivered/pipe/child-killed-by-signal-reported-delivered'
         return 'unclassified/unsafe-delivered/%s/%s/%s' % (k, fam, oc)
     if clause == 'class':
+        if k == 'http' and outcome.startswith('hdrshape-') and '-text-' in outcome and 'HTTP request failed' in str(res['per']):
+            return 'wrong-class/http/X-Smtp-Reply-message-text-makes-the-parse-fail->reported-as-transient'
         if k in ('smtp', 'lmtp') and case['stage'] == 'rcpt-all-mixed':
             return 'wrong-class/smtp+lmtp/every-rcpt-refused-with-differing-classes->all-get-the-first-reply'
         if k == 'http' and outcome.endswith('-command') and "no attribute 'decode'" in str(res['per']):
@@ -1877,7 +1969,7 @@ def all_cases(tier, seed):
     rnd = random.Random('c11-%s-%d' % (tier, seed))
     smtp = gen_smtp_all(rnd, NMULTI[tier], full=(tier == 'thorough'))
     others = gen_pipe_all() + gen_http_all() + gen_mx_all()
-    return smtp + others
+    return vary_reply_texts(smtp + others, random.Random('c11-texts-%s-%d' % (tier, seed)))
 
 
 def gen_cases(tier, seed, shard, nshards):
@@ -1935,7 +2027,9 @@ def strata(case, obs):
             out.append('non-250-acceptance-x-end-of-data-outcome')
             if case.get('reuse') and obs.get('reused'):
                 out.append('non-250-acceptance-then-second-message-on-the-connection')
-    elif kind == 'mx':
+    if case.get('texts') and fired:
+        out.append('reply-text-variant')
+    if kind == 'mx':
         name = {'mx3-fallback': 'mx-fallback-sequence', 'force-mx': 'mx-forced-destination',
                 'dns-changes': 'mx-resolver-answer-changes'}.get(st)
         if name:
@@ -1956,6 +2050,8 @@ def strata(case, obs):
     elif kind == 'pipe':
         if st.startswith('stdin-not-read') and obs['log']['started']:
             out.append('pipe-stdin-not-read')
+        if case.get('text_variant') and obs['log']['started']:
+            out.append('pipe-output-text-variant')
     return out
 
 
@@ -1963,6 +2059,8 @@ def _account(case, obs, R):
     k, fam, outcome, pl = labels(case)
     for name in strata(case, obs):
         R.hit('stratum/' + name)
+    for name in case.get('texts') or ():
+        R.observe('reply-text-variant', (k, name))
     R.eval(len(obs['msgs']))
     R.count('cases/' + case['kind'])
     R.count('attempts/' + k, len(obs['msgs']))
